@@ -247,6 +247,8 @@ def _child_session(rec):
             if entry["finite"]:
                 entry["res"] = residuals(mol, c["uhf"])
             entry["Etot"] = mol.Etot.detach().tolist()
+            if c["uhf"] and mol.dm.dim() == 4:
+                entry["spin"] = (mol.dm[:, 0] - mol.dm[:, 1]).detach().abs().amax(dim=(1, 2)).tolist()
             entry["force"] = mol.force.detach().tolist()
             entry["q"] = mol.q.detach().tolist() if torch.is_tensor(mol.q) else None
             e_mo = mol.e_mo.detach()
